@@ -41,6 +41,7 @@ def run(ctx):
     repo = ctx.repo
     _sibling_constructions(ctx, repo)
     _common_unit(ctx, repo)
+    _stripped_tags(ctx, repo)
     _exhaustive_match(ctx, repo)
     ctx.decided += [
         'C16.a gate kinds: writer fields within the schema, every schema kind has reader and writer, class written == class rebuilt, '
@@ -1699,3 +1700,33 @@ def _common_unit(ctx, repo):
                        '(stop=2*us with start=500*ns) is read back in the wrong unit', m.rel, s_.lineno)
     if n == 0:
         raise AnalysisError('C16.t: no number written next to a unit found')
+
+
+def _stripped_tags(ctx, repo):
+    """C16.u - a writer branch that serialises `<op>.untagged` accounts for `<op>.tags` (writes them or refuses)."""
+    ctx.decided.append('C16.u circuit writer: a branch that hands `<op>.untagged` to a serializer also looks at `<op>.tags` (to write them or to refuse): tags are part of the value and of equality')
+    ctx.rule('C16.u', 'no silent untagging: in CircuitSerializer._serialize_circuit every if-branch whose body passes `<x>.untagged` (possibly through further attribute / method access) to a '
+             'serializer call reads `<x>.tags` in the same branch', floor=1, style='WR')
+    ci = repo.cls('cirq_google.serialization.circuit_serializer.CircuitSerializer')
+    fn = ci.methods.get('_serialize_circuit')
+    if fn is None:
+        raise AnalysisError('CircuitSerializer._serialize_circuit vanished')
+    n = 0
+    for i_ in ast.walk(fn):
+        if not isinstance(i_, ast.If):
+            continue
+        body_nodes = [x for s_ in i_.body for x in ast.walk(s_)]
+        vars_ = set()
+        for c in body_nodes:
+            if isinstance(c, ast.Call):
+                for a in list(c.args) + [k.value for k in c.keywords]:
+                    for x in ast.walk(a):
+                        if isinstance(x, ast.Attribute) and x.attr == 'untagged' and isinstance(x.value, ast.Name):
+                            vars_.add(x.value.id)
+        for v in sorted(vars_):
+            n += 1
+            ok = any(isinstance(x, ast.Attribute) and x.attr == 'tags' and isinstance(x.value, ast.Name) and x.value.id == v for x in body_nodes)
+            ctx.ob('C16.u', f'{ci.qual}._serialize_circuit:{v}.untagged', ok, '' if ok else
+                   f'the branch writes `{v}.untagged` and never looks at `{v}.tags`: tags on the operation vanish on the wire and the round trip is unequal', ci.mod.rel, i_.lineno)
+    if n == 0:
+        raise AnalysisError('C16.u: no branch serialising an untagged operation found')
